@@ -24,7 +24,8 @@
      xsub2 <alloc bytes> <size> <off> <bits_at> <size_bits> -> -3 | the same of subspan(bits_at, size_bits)
      xbits <size> <off> -> size()    xceil <size> <off> -> offset_bytes_ceil()    xalign <off> <n> -> offset after align_offset_to<n>
      xza <buf> <size> <off> -> <rc> <buf'>  setZeros()      xcpa <dst> <dsize> <doff> <src> <ssize> <soff> -> <dst'>  copyTo(dst)
-     xat <size> <off> <bits> -> <size()> <offset()> of at_offset(bits)      xob <size> <off> -> offset_bytes() *)
+     xat <size> <off> <bits> -> <size()> <offset()> of at_offset(bits)      xob <size> <off> -> offset_bytes()
+     xmis <off> <n> -> <offset_misalignment(n)> <offset_alings_to(n)> <offset_alings_to_byte()>   xso <size> <off> <bits> -> <size()> <offset()> after set_offset(bits) *)
 open Model
 
 let rec pos_of_int64 (x : int64) : positive =
@@ -113,13 +114,19 @@ let cpp_command (toks : string list) : string =
   | ["xcpa"; dst; dsize; doff; src; ssize; soff] -> show_ob (copyTo_all (sp (parse_buf src) ssize soff) (sp (parse_buf dst) dsize doff))
   | ["xat"; size; off; bits] -> let s' = at_offset (sp [] size off) (parse_u64 bits) in show_u64 (sp_bits s') ^ " " ^ show_u64 s'.sp_off
   | ["xob"; size; off] -> show_u64 (offset_bytes (sp [] size off))
+  | ["xmis"; off; n] ->
+    let s0 = sp [] "0" off in
+    (match offset_misalignment s0 (parse_u64 n), offset_aligns_to s0 (parse_u64 n), offset_aligns_to s0 (n_of_int 8) with
+     | Some m, Some a, Some b -> Printf.sprintf "%s %d %d" (show_u64 m) (if a then 1 else 0) (if b then 1 else 0)
+     | _ -> "UB")
+  | ["xso"; size; off; bits] -> let s' = set_offset (sp [] size off) (parse_u64 bits) in show_u64 (sp_bits s') ^ " " ^ show_u64 s'.sp_off
   | ["xbits"; size; off] -> show_u64 (sp_bits (sp [] size off))
   | ["xceil"; size; off] -> show_u64 (offset_bytes_ceil (sp [] size off))
   | ["xalign"; off; n] -> show_u64 (align_offset_to (sp [] "0" off) (parse_u64 n)).sp_off
   | _ -> "ERR unknown command"
 
 (* ---- Python Serializer / Deserializer: one line = one op sequence -------------------------------------------
-   pyser <n> <op>;<op>;...   -> <offset> <whole buffer>          | EXC@<index of the raising op>
+   pyser <n> <op>;<op>;...   -> <offset> <whole buffer> <Serializer.buffer>   | EXC@<index of the raising op>
    pydes <buf> <op>;<op>;... -> <r1>,<r2>,...,<final offset>     | EXC@<index>
    ops (fields separated by ':'):
      sk:k  pad:n  bit:0|1  ub:<hex>  ab:<hex>  au:v:bits  uu:v:bits  as:v:bits  us:v:bits  u8:x u16:x u32:x u64:x  i8:x .. i64:x
@@ -193,7 +200,7 @@ let run_pyser (n : string) (ops : string list) : string =
           (match stack with p :: st -> go st (ser_join p s) rest | [] -> failwith "join without fork")
         else go stack (ser_op s op) rest in
     let s = go [] (ser_new (parse_u64 n)) ops in
-    show_u64 s.s_off ^ " " ^ show_buf s.s_buf
+    show_u64 s.s_off ^ " " ^ show_buf s.s_buf ^ " " ^ show_buf (ser_buffer s)
   with Raised -> "EXC@" ^ string_of_int (!idx - 1)
 
 let run_pydes (buf : string) (ops : string list) : string =
